@@ -57,6 +57,7 @@ type violationReport struct {
 	ShrunkLen  int        `json:"shrunk_len"`
 	Reproduced bool       `json:"reproduced"`
 	Known      bool       `json:"known"`
+	NeedsReplay bool      `json:"needs_replay"`
 }
 
 var verifDir = "/verif"
@@ -355,7 +356,14 @@ func run(p *propCfg, tier string, seed int64, replay string, determinism bool, s
 					return
 				}
 				var o batchOut
-				if jerr := json.Unmarshal(b, &o); jerr != nil {
+				jerr := json.Unmarshal(b, &o)
+				for i := range o.Violations {
+					v := &o.Violations[i]
+					if v.NeedsReplay && !v.Known {
+						v.Reproduced = confirmReplay(p, wbin, v, scratch, w)
+					}
+				}
+				if jerr != nil {
 					mu.Lock()
 					trouble = append(trouble, fmt.Sprintf("worker %d: bad output: %v", w, jerr))
 					mu.Unlock()
@@ -385,6 +393,24 @@ func run(p *propCfg, tier string, seed int64, replay string, determinism bool, s
 		trouble = append(trouble, "determinism self-test failed: "+detMsg)
 	}
 	return report(p, tier, seed, outs, crashes, trouble, kn, start, buildS)
+}
+
+// confirmReplay re-executes a violation of a one-run-per-process harness from its replay file in
+// a fresh process: same class and same canonical log hash, no tape divergence.
+func confirmReplay(p *propCfg, bin string, v *violationReport, scratch string, w int) bool {
+	outFile := filepath.Join(scratch, fmt.Sprintf("confirm.%d.%d.json", w, v.Seed))
+	_, _ = runWorker(bin, []string{"SIM_MODE=replay", "SIM_PROP=" + p.ID, "SIM_REPLAY=" + v.Replay, "SIM_OUT=" + outFile}, time.Duration(p.WatchdogSlackS)*time.Second)
+	b, err := os.ReadFile(outFile)
+	if err != nil {
+		return false
+	}
+	var res map[string]any
+	if json.Unmarshal(b, &res) != nil {
+		return false
+	}
+	want := v.Violation.Property + "/" + v.Violation.Oracle + "/" + v.Violation.Sig
+	d, _ := res["diverged"].(string)
+	return res["class"] == want && d == "" && res["log_hash"] == res["expected_log_hash"]
 }
 
 func crashReport(p *propCfg, seed uint64, log, replayDir string) violationReport {
